@@ -3,6 +3,21 @@ C11 — votes are pooled only for claims identical in every effect-bearing field
 `Model/ClaimHash.lean` is the pre-image of `ClaimHash`; the attestation key is
 (chain prefix, nonce, H(pre-image)). Which fields each claim type hashes, and that they cover the
 effect-bearing fields, is the generated table `Gen/Claims.lean` (checked below by `decide`).
+
+How the pieces fit:
+  * `preimage_injective` (all field values): within one shape the pre-image determines every field;
+  * `hashed_covers_effect_fields` / `hashed_fields_as_in_property` (`decide` over the regenerated table): the
+    format of every submittable claim type IS a shape in that sense (format literal = separators and verbs
+    as modelled, every verb the injective one for its field's Go type) and its arguments are exactly the
+    fields the property lists; every other field of the struct is the voter's identity, transaction
+    metadata, the chain id (store prefix of the key) or a field no handler reads;
+  * `same_key_same_claim` / `same_attestation_key_same_effect` (the property's two sentences, composite): two
+    well-typed claims of ANY two submittable types with the same attestation key are the same claim — same
+    type, same value of every hashed field — unless the hash collides on exactly their two pre-images; hence
+    whatever applying a claim does (any function of type and hashed fields) is the same for both.
+`Props/C02.lean` imports this file and lifts the last statement to oracle histories
+(`honest_votes_counted_only_for_identical_claim`).
+External ASSUMPTION, always stated pointwise: the hash does not collide on the two pre-images in question.
 -/
 import PalomaModel.Model.ClaimHash
 import PalomaModel.Gen.Claims
@@ -225,6 +240,93 @@ theorem nodup_map_inj {α β : Type} (f : α → β) : ∀ (l : List α), (l.map
     · exact absurd hab (hn.1 a ha')
     · exact nodup_map_inj f xs hn.2 a ha' b hb' hab
 
+theorem kindOf_sameKind {f g : Field} (h : kindOf f = kindOf g) : sameKind f g = true := by
+  cases f <;> cases g <;> simp [kindOf] at h <;> rfl
+
+theorem hasShape_length : ∀ (ks : List Kind) (fs : List Field), hasShape ks fs = true → fs.length = ks.length
+  | [], [], _ => rfl
+  | _ :: ks, _ :: fs, h => by
+    simp only [hasShape, Bool.and_eq_true] at h
+    simp [hasShape_length ks fs h.2]
+  | [], _ :: _, h => by simp [hasShape] at h
+  | _ :: _, [], h => by simp [hasShape] at h
+
+/-- two instances of one shape have the same kinds in the same positions -/
+theorem hasShape_sameShape : ∀ (ks : List Kind) (fs gs : List Field), hasShape ks fs = true →
+    hasShape ks gs = true → sameShape fs gs = true
+  | [], [], [], _, _ => rfl
+  | k :: ks, f :: fs, g :: gs, hf, hg => by
+    simp only [hasShape, Bool.and_eq_true, beq_iff_eq] at hf hg
+    simp only [sameShape, Bool.and_eq_true]
+    exact ⟨kindOf_sameKind (hf.1.trans hg.1.symm), hasShape_sameShape ks fs gs hf.2 hg.2⟩
+  | [], _ :: _, _, hf, _ => by simp [hasShape] at hf
+  | [], [], _ :: _, _, hg => by simp [hasShape] at hg
+  | _ :: _, [], _, hf, _ => by simp [hasShape] at hf
+  | _ :: _, _ :: _, [], _, hg => by simp [hasShape] at hg
+
+/-- replacing one field by another value of the same kind keeps the shape -/
+theorem hasShape_set : ∀ (ks : List Kind) (fs : List Field) (i : Nat) (g : Field) (hi : i < fs.length),
+    hasShape ks fs = true → kindOf g = kindOf fs[i] → hasShape ks (fs.set i g) = true
+  | [], [], _, _, hi, _, _ => by simp at hi
+  | [], _ :: _, _, _, _, h, _ => by simp [hasShape] at h
+  | _ :: _, [], _, _, hi, _, _ => by simp at hi
+  | k :: ks, f :: fs, 0, g, _, h, hk => by
+    simp only [hasShape, Bool.and_eq_true, beq_iff_eq, List.set_cons_zero, List.getElem_cons_zero] at h hk ⊢
+    exact ⟨hk.trans h.1, h.2⟩
+  | k :: ks, f :: fs, i + 1, g, hi, h, hk => by
+    simp only [hasShape, Bool.and_eq_true, beq_iff_eq, List.set_cons_succ, List.getElem_cons_succ] at h hk ⊢
+    exact ⟨h.1, hasShape_set ks fs i g (by simpa using hi) h.2 hk⟩
+
+theorem hasShape_cons_num {ks : List Kind} {fs : List Field} (h : hasShape (.num :: ks) fs = true) :
+    ∃ n rest, fs = .num n :: rest ∧ hasShape ks rest = true := by
+  cases fs with
+  | nil => simp [hasShape] at h
+  | cons f rest =>
+    simp only [hasShape, Bool.and_eq_true, beq_iff_eq] at h
+    cases f with
+    | num n => exact ⟨n, rest, rfl, h.2⟩
+    | amt i => simp [kindOf] at h
+    | nilAmt => simp [kindOf] at h
+    | str b => simp [kindOf] at h
+
+theorem hasShape_snoc_str : ∀ (ks : List Kind) (fs : List Field), hasShape (ks ++ [.str]) fs = true →
+    ∃ mid b, fs = mid ++ [.str b]
+  | [], fs, h => by
+    cases fs with
+    | nil => simp [hasShape] at h
+    | cons f rest =>
+      cases rest with
+      | nil =>
+        simp only [List.nil_append, hasShape, Bool.and_eq_true, beq_iff_eq] at h
+        cases f with
+        | str b => exact ⟨[], b, rfl⟩
+        | num n => simp [kindOf] at h
+        | amt i => simp [kindOf] at h
+        | nilAmt => simp [kindOf] at h
+      | cons g r => simp [hasShape] at h
+  | k :: ks, fs, h => by
+    cases fs with
+    | nil => simp [hasShape] at h
+    | cons f rest =>
+      simp only [List.cons_append, hasShape, Bool.and_eq_true] at h
+      obtain ⟨mid, b, hr⟩ := hasShape_snoc_str ks rest h.2
+      exact ⟨f :: mid, b, by rw [hr]; rfl⟩
+
+theorem shapeOfVerbs_length : ∀ (vs : List String) (ks : List Kind), shapeOfVerbs vs = some ks →
+    ks.length = vs.length
+  | [], ks, h => by simp [shapeOfVerbs] at h; subst h; rfl
+  | v :: vs, ks, h => by
+    simp only [shapeOfVerbs] at h
+    cases hk : verbKind v with
+    | none => simp [hk] at h
+    | some k =>
+      cases hs : shapeOfVerbs vs with
+      | none => simp [hk, hs] at h
+      | some ks' =>
+        simp only [hk, hs, Option.some.injEq] at h
+        subst h
+        simp [shapeOfVerbs_length vs ks' hs]
+
 end Lemmas
 
 /-! ## Property theorems (C11) -/
@@ -262,19 +364,42 @@ theorem different_fields_different_key_or_collision (H : List Nat → Nat) (fs g
 
 /-! ### the generated table (`Gen/Claims.lean`, regenerated from the source on every run) -/
 
-open Paloma.Gen.Claims in
-/-- fields that need not be hashed, with the reason:
-    `Orchestrator`, `Metadata` — the voter's own identity and transaction metadata;
-    `EventNonce` — never read except for `≠ 0` in ValidateBasic;
-    `ChainReferenceId` — part of the attestation key as the store prefix (`GetStore(ctx, chainReferenceID)`). -/
-def notHashedOk : List String := ["Orchestrator", "Metadata", "EventNonce", "ChainReferenceId"]
+/-- the voter's own identity and the transaction metadata: excluded by the property's quantifier; the handler
+may read them (they are whoever submitted the stored claim first) -/
+def identityFields : List String := ["Orchestrator", "Metadata"]
+
+/-- bound by the attestation key outside the hash: the chain id is the store prefix of the key
+(`GetStore(ctx, chainReferenceID)`), see `same_attestation_key_same_effect` -/
+def keyedFields : List String := ["ChainReferenceId"]
+
+/-- not hashed because NO handler reads it (`≠ 0` in ValidateBasic is its only use). The reason is enforced:
+`claimOk` fails for a claim type whose handler reads such a field, directly or through an accessor. -/
+def unreadFields : List String := ["EventNonce"]
+
+/-- fields that need not be hashed -/
+def notHashedOk : List String := identityFields ++ keyedFields ++ unreadFields
 
 /-- claim types that cannot be submitted (no Msg service method; decoding of old state only) -/
 def legacyTypes : List String := ["MsgBatchSendToEthClaim"]
 
-/-- accessor / method names that show up as `claim.X` in handlers but are not fields -/
-def handlerNonFields : List String :=
-  ["ClaimHash", "GetSkywayNonce", "GetType", "GetChainReferenceId", "GetEthBlockHeight", "GetCompassID", "GetClaimer", "String"]
+/-- hand-written accessors that show up as `claim.X()` in handlers, with the struct field they return
+(`none`: a function of the claim type or of the hash itself — `ClaimHash`, `GetType` — or the debug rendering
+`String`). Generated getters `Get<Field>` are resolved against the struct's field list by `readsOf`. -/
+def accessorField : List (String × Option String) :=
+  [("ClaimHash", none), ("GetType", none), ("String", none),
+   ("GetSkywayNonce", some "SkywayNonce"), ("GetChainReferenceId", some "ChainReferenceId"),
+   ("GetEthBlockHeight", some "EthBlockHeight"), ("GetCompassID", some "CompassId"),
+   ("GetClaimer", some "Orchestrator")]
+
+/-- the struct fields a handler selector `claim.r` reads -/
+def readsOf (fields : List (String × String)) (r : String) : List String :=
+  match accessorField.find? (fun p => p.1 == r) with
+  | some (_, some f) => [f]
+  | some (_, none) => []
+  | none =>
+    match fields.find? (fun f => "Get" ++ f.1 == r) with
+    | some f => [f.1]
+    | none => [r]
 
 def argField (a : String) : String := if a == "Amount.String()" then "Amount" else a
 
@@ -286,11 +411,23 @@ def verbOk (ty verb arg : String) : Bool :=
 def lookupTy (fields : List (String × String)) (f : String) : Option String :=
   (fields.find? (fun p => p.1 == f)).map (·.2)
 
+/-- the format literal a list of separators and verbs stands for -/
+def rebuildFormat : List String → List String → String
+  | s :: ss, v :: vs => s ++ v ++ rebuildFormat ss vs
+  | ss, _ => String.join ss
+
+/-- the shape of a claim type (kinds of its hashed parts, in order), computed from the generated verbs -/
+def shapeOf (c : Paloma.Gen.Claims.ClaimDesc) : Option (List Kind) := shapeOfVerbs c.verbs
+
 /-- what `preimage_injective` needs of a claim type, plus coverage of the effect-bearing fields -/
 def claimOk (c : Paloma.Gen.Claims.ClaimDesc) : Bool :=
   c.verbs.length == c.args.length &&
+  -- the format literal in the source IS what the separators and verbs say (nothing else is in it)
+  c.format == rebuildFormat c.seps c.verbs &&
   -- separators: nothing before the first verb, "/" between verbs, nothing after the last
   c.seps == [""] ++ List.replicate (c.verbs.length - 1) "/" ++ [""] &&
+  -- every verb is one of the three modelled renderings: the type has a shape
+  (shapeOf c).isSome &&
   -- every argument is a struct field rendered with the injective verb for its type
   ((c.args.zip c.verbs).all fun (a, v) =>
     match lookupTy c.fields (argField a) with
@@ -300,18 +437,53 @@ def claimOk (c : Paloma.Gen.Claims.ClaimDesc) : Bool :=
   decide ((c.args.map argField).Nodup) &&
   -- coverage: every struct field is hashed unless it is on the justified allow-list
   (c.fields.all fun f => notHashedOk.contains f.1 || (c.args.map argField).contains f.1) &&
-  -- every claim field the attestation handler reads is hashed (or on the allow-list)
-  (c.handlerReads.all fun r =>
-    handlerNonFields.contains r || notHashedOk.contains r || (c.args.map argField).contains r)
+  -- every claim field the attestation handler reads (directly or through an accessor) is hashed, or is the
+  -- voter's identity / metadata, or the chain id; in particular a field allowed as "never read" is not read
+  (c.handlerReads.all fun r => (readsOf c.fields r).all fun f =>
+    identityFields.contains f || keyedFields.contains f || (c.args.map argField).contains f)
+
+/-- the submittable claim types of the CURRENT source -/
+def submittable : List Paloma.Gen.Claims.ClaimDesc :=
+  Paloma.Gen.Claims.claims.filter fun c => !legacyTypes.contains c.name
 
 /-- **hashed_covers_effect_fields.** For every submittable claim type in the CURRENT source:
-the hash pre-image has the separator-safe shape `preimage_injective` is about, and it contains
-every field of the claim other than the voter's identity, transaction metadata, the unused
-event nonce and the chain id (which is the key's store prefix) — in particular every field the
-attestation handler reads. A new claim type, a new field, or a field dropped from the hash
-makes this `decide` fail. -/
-theorem hashed_covers_effect_fields :
-    ((Paloma.Gen.Claims.claims.filter fun c => !legacyTypes.contains c.name).all claimOk) = true := by decide
+the hash pre-image has the separator-safe shape `preimage_injective` is about — the format literal is
+exactly the generated separators and verbs, every verb is the injective rendering of its field's Go type —
+and it contains every field of the claim other than the voter's identity, transaction metadata, the chain
+id (which is the key's store prefix) and the event nonce, which no handler reads (checked, not assumed) — in
+particular every field the attestation handler reads. A new claim type, a new field, a field dropped from
+the hash, a changed format literal or a handler that starts reading an un-hashed field makes this `decide`
+fail. -/
+theorem hashed_covers_effect_fields : (submittable.all claimOk) = true := by decide
+
+/-- **hashed_fields_as_in_property.** The hashed arguments of the three submittable claim types, by name, are
+the fields the property enumerates: nonce, remote block height, token, amount, sender, receiver, batch
+nonce, buyer address, originating contract and bridge deployment id (the chain is the key's prefix). Nonce
+and remote height come first and the deployment id last in every type (used by `Props/C02.lean`). -/
+theorem hashed_fields_as_in_property :
+    submittable.map (fun c => (c.name, c.args.map argField)) =
+      [("MsgBatchSendToRemoteClaim", ["SkywayNonce", "EthBlockHeight", "BatchNonce", "TokenContract", "CompassId"]),
+       ("MsgLightNodeSaleClaim", ["SkywayNonce", "EthBlockHeight", "ClientAddress", "Amount", "SmartContractAddress", "CompassId"]),
+       ("MsgSendToPalomaClaim", ["SkywayNonce", "EthBlockHeight", "TokenContract", "Amount", "EthereumSender", "PalomaReceiver", "CompassId"])] ∧
+    submittable.map shapeOf =
+      [some [.num, .num, .num, .str, .str], some [.num, .num, .str, .amt, .str, .str],
+       some [.num, .num, .str, .amt, .str, .str, .str]] := by decide
+
+/-- **shapes_have_oracle_form.** (decide over the regenerated table) the format of every submittable claim type
+starts with two `%d` parts and ends with a `%x` part — by `hashed_fields_as_in_property` the skyway nonce, the
+remote block height and the compass id. `Props/C02.lean` relies on this layout. -/
+theorem shapes_have_oracle_form :
+    (submittable.all fun d => match shapeOf d with
+      | some (.num :: .num :: rest) => rest.getLast? == some .str
+      | _ => false) = true := by decide
+
+/-- the checks of `claimOk` are not vacuous: each of these fake descriptors differs from a real row in one
+respect and is refused — a format literal that is not what verbs and separators say; a handler that reads
+the un-hashed `EventNonce` (directly, or through its generated getter); an effect-bearing field dropped from
+the hash; a raw `%s` string -/
+def fakeRow (format : String) (verbs args reads : List String) : Paloma.Gen.Claims.ClaimDesc :=
+  { name := "Fake", fields := [("EventNonce", "uint64"), ("TokenContract", "string"), ("SkywayNonce", "uint64"), ("Orchestrator", "string")],
+    format := format, verbs := verbs, seps := ["", "/", ""], args := args, handlerReads := reads }
 
 /-- **preimage_fixes_arity.** The number of `/`-separated parts of a pre-image is determined by
 its bytes (no rendered field contains the separator), so claims whose formats have a different
@@ -328,8 +500,7 @@ theorem preimage_fixes_arity (fs gs : List Field) (hf : fs ≠ []) (hg : gs ≠ 
   omega
 
 /-- the submittable claim types of the CURRENT source, as (name, number of hashed parts) -/
-def arities : List (String × Nat) :=
-  (Paloma.Gen.Claims.claims.filter fun c => !legacyTypes.contains c.name).map fun c => (c.name, c.verbs.length)
+def arities : List (String × Nat) := submittable.map fun c => (c.name, c.verbs.length)
 
 /-- **claim_types_have_distinct_arity.** (decide over the regenerated table) every submittable
 claim type hashes at least one part and no two of them hash the same number of parts. -/
@@ -339,7 +510,10 @@ theorem claim_types_have_distinct_arity :
 /-- **claim_types_never_pool.** Claims of two different submittable types never share a pre-image
 (hence, with a collision-free hash, never an attestation key): the claim type itself — which
 selects the handler and so is effect-bearing — is pinned by the hash although it is not written
-into it. -/
+into it. SCOPE: the submittable types of the regenerated table (completeness of the extractor's table is
+trusted). Attestations that did not come through a Msg service method are outside: `InitGenesis` stores
+whatever attestations the genesis file lists, unvalidated, including the legacy `MsgBatchSendToEthClaim`,
+whose raw `%s` token string may contain the separator (see the last example of this file). -/
 theorem claim_types_never_pool (a b : String × Nat) (ha : a ∈ arities) (hb : b ∈ arities) (hne : a.1 ≠ b.1)
     (fs gs : List Field) (hfa : fs.length = a.2) (hgb : gs.length = b.2) : preimage fs ≠ preimage gs := by
   intro h
@@ -361,8 +535,7 @@ theorem claim_types_never_pool (a b : String × Nat) (ha : a ∈ arities) (hb : 
 Msg service method, and every claim type that is checked IS the request type of one. -/
 theorem legacy_claim_types_cannot_be_submitted :
     (legacyTypes.all fun n => Paloma.Gen.Auth.handlers.all fun h => h.request != n) = true ∧
-    ((Paloma.Gen.Claims.claims.filter fun c => !legacyTypes.contains c.name).all fun c =>
-      Paloma.Gen.Auth.handlers.any fun h => h.request == c.name) = true := by decide
+    (submittable.all fun c => Paloma.Gen.Auth.handlers.any fun h => h.request == c.name) = true := by decide
 
 /-- the three claim types the oracle handles are all present in the table -/
 theorem claim_types_present :
@@ -374,7 +547,182 @@ theorem claim_types_present :
 theorem hex_separates_slash :
     preimage [.str [97, 47, 98], .str [99]] ≠ preimage [.str [97], .str [98, 47, 99]] := by decide
 
+/-! ### typed claims: the property's two sentences -/
+
+/-- a claim as far as the oracle is concerned: its type (which selects the handler) and the values of the
+hashed fields, in format order -/
+structure Claim where
+  ty : String
+  fields : List Field
+deriving DecidableEq, Repr
+
+/-- `c` is an instance of a submittable claim type of the CURRENT source: its fields have the kinds of that
+type's format verbs, position by position -/
+def Claim.wellTyped (c : Claim) : Bool :=
+  submittable.any fun d => d.name == c.ty &&
+    (match shapeOf d with
+     | some ks => hasShape ks c.fields
+     | none => false)
+
+/-- **types_separated_by_arity.** (decide over the regenerated table) every submittable claim type hashes at
+least one part, and two rows whose formats have the same number of parts are the same type with the same
+verbs. Together with `preimage_fixes_arity`: the claim type — which selects the handler and so is
+effect-bearing — is pinned by the pre-image although it is not written into it. -/
+theorem types_separated_by_arity :
+    (submittable.all fun a => decide (1 ≤ a.verbs.length) &&
+      submittable.all fun b => a.verbs.length != b.verbs.length || (a.verbs == b.verbs && a.name == b.name)) = true := by
+  decide
+
+/-- **wellTyped_preimage_injective** (no assumption on any hash). Two well-typed claims — of the same or of
+different submittable types — with the same pre-image bytes are the same claim: same type and the same value
+in every hashed field. -/
+theorem wellTyped_preimage_injective (c c' : Claim) (hc : c.wellTyped = true) (hc' : c'.wellTyped = true)
+    (hp : preimage c.fields = preimage c'.fields) : c = c' := by
+  unfold Claim.wellTyped at hc hc'
+  obtain ⟨d, hd, hdc⟩ := List.any_eq_true.mp hc
+  obtain ⟨d', hd', hdc'⟩ := List.any_eq_true.mp hc'
+  simp only [Bool.and_eq_true, beq_iff_eq] at hdc hdc'
+  obtain ⟨hn, hs⟩ := hdc
+  obtain ⟨hn', hs'⟩ := hdc'
+  cases hk : shapeOf d with
+  | none => simp [hk] at hs
+  | some ks =>
+    cases hk' : shapeOf d' with
+    | none => simp [hk'] at hs'
+    | some ks' =>
+      simp only [hk] at hs
+      simp only [hk'] at hs'
+      have hl := hasShape_length ks c.fields hs
+      have hl' := hasShape_length ks' c'.fields hs'
+      have hv := shapeOfVerbs_length d.verbs ks hk
+      have hv' := shapeOfVerbs_length d'.verbs ks' hk'
+      have ht := types_separated_by_arity
+      rw [List.all_eq_true] at ht
+      have htd := ht d hd
+      have htd' := ht d' hd'
+      simp only [Bool.and_eq_true, decide_eq_true_eq, List.all_eq_true] at htd htd'
+      have hne : c.fields ≠ [] := by intro e; rw [e] at hl; simp at hl; omega
+      have hne' : c'.fields ≠ [] := by intro e; rw [e] at hl'; simp at hl'; omega
+      have harity := preimage_fixes_arity c.fields c'.fields hne hne' hp
+      have hdd := htd.2 d' hd'
+      have hlen : d.verbs.length = d'.verbs.length := by omega
+      simp only [hlen, bne_self_eq_false, Bool.false_or, Bool.and_eq_true, beq_iff_eq] at hdd
+      have hks : ks = ks' := by
+        unfold shapeOf at hk hk'
+        rw [hdd.1, hk'] at hk
+        exact (Option.some.inj hk).symm
+      subst hks
+      have hf := preimage_injective c.fields c'.fields (hasShape_sameShape ks _ _ hs hs') hp
+      cases c; cases c'
+      simp only at hn hn' hf
+      simp only [Claim.mk.injEq]
+      exact ⟨by rw [← hn, ← hn', hdd.2], hf⟩
+
+/-- **same_key_same_claim** (the property's first sentence, across claim types). ASSUMPTION (named,
+pointwise): the hash does not collide on the two pre-images in question (`hnc`). Then two well-typed claims
+whose hashes coincide are tallied as the same event only if they ARE the same claim: same type, and the same
+nonce, remote height, token, amount, sender, receiver, batch nonce, buyer address, originating contract and
+deployment id — whichever of these the type has (`hashed_fields_as_in_property`). -/
+theorem same_key_same_claim (H : List Nat → Nat) (c c' : Claim) (hc : c.wellTyped = true)
+    (hc' : c'.wellTyped = true)
+    (hnc : H (preimage c.fields) = H (preimage c'.fields) → preimage c.fields = preimage c'.fields)
+    (h : H (preimage c.fields) = H (preimage c'.fields)) : c = c' :=
+  wellTyped_preimage_injective c c' hc hc' (hnc h)
+
+/-- **different_claims_different_key_or_collision** (no assumption on the hash). Two different well-typed
+claims either get different hashes or exhibit a concrete collision of the hash on their two (different)
+pre-images. -/
+theorem different_claims_different_key_or_collision (H : List Nat → Nat) (c c' : Claim)
+    (hc : c.wellTyped = true) (hc' : c'.wellTyped = true) (hne : c ≠ c') :
+    H (preimage c.fields) ≠ H (preimage c'.fields) ∨
+    (preimage c.fields ≠ preimage c'.fields ∧ H (preimage c.fields) = H (preimage c'.fields)) := by
+  by_cases h : H (preimage c.fields) = H (preimage c'.fields)
+  · right; exact ⟨fun hp => hne (wellTyped_preimage_injective c c' hc hc' hp), h⟩
+  · left; exact h
+
+/-- **every_field_influences_key** (the property's quantifier, literally: "for every claim type, every field
+of it other than the voter's own identity and transaction metadata, and all pairs of values for that
+field"). Take any well-typed claim of any submittable type, any position `i` of its hashed fields — by
+`hashed_fields_as_in_property` these are nonce, remote height, token, amount, sender, receiver, batch nonce,
+buyer address, originating contract, deployment id, whichever the type has — and any other value `g` of that
+field's kind. The changed claim is again a well-typed claim of the type, and it is NOT tallied with the
+original: its hash differs, or the two (different) pre-images are a concrete collision of the hash. -/
+theorem every_field_influences_key (H : List Nat → Nat) (c : Claim) (hc : c.wellTyped = true) (i : Nat)
+    (hi : i < c.fields.length) (g : Field) (hk : kindOf g = kindOf c.fields[i]) (hne : g ≠ c.fields[i]) :
+    Claim.wellTyped { c with fields := c.fields.set i g } = true ∧
+    (H (preimage c.fields) ≠ H (preimage (c.fields.set i g)) ∨
+     (preimage c.fields ≠ preimage (c.fields.set i g) ∧
+      H (preimage c.fields) = H (preimage (c.fields.set i g)))) := by
+  have hwt : Claim.wellTyped { c with fields := c.fields.set i g } = true := by
+    unfold Claim.wellTyped at hc ⊢
+    obtain ⟨d, hd, hdc⟩ := List.any_eq_true.mp hc
+    refine List.any_eq_true.mpr ⟨d, hd, ?_⟩
+    simp only [Bool.and_eq_true, beq_iff_eq] at hdc ⊢
+    refine ⟨hdc.1, ?_⟩
+    cases hs : shapeOf d with
+    | none => simp [hs] at hdc
+    | some ks =>
+      have h2 := hdc.2
+      simp only [hs] at h2 ⊢
+      exact hasShape_set ks c.fields i g hi h2 hk
+  refine ⟨hwt, ?_⟩
+  have hdiff : c ≠ { c with fields := c.fields.set i g } := by
+    intro e
+    have e2 : c.fields = c.fields.set i g := congrArg Claim.fields e
+    have e3 : c.fields[i] = (c.fields.set i g)[i]'(by simpa using hi) := by
+      congr 1
+    rw [List.getElem_set_self] at e3
+    exact hne e3.symm
+  exact different_claims_different_key_or_collision H c _ hc hwt hdiff
+
+/-- the attestation key of a claim: the chain's store prefix, the nonce, the hash of the pre-image
+(`GetStore(ctx, chainReferenceID)`, `GetAttestationKey(nonce, hash)`) -/
+def attKey (H : List Nat → Nat) (chain : List Nat) (nonce : Nat) (c : Claim) : List Nat × Nat × Nat :=
+  (chain, nonce, H (preimage c.fields))
+
+/-- **same_attestation_key_same_effect** (the property's second sentence at the level of one key: "a
+validator can therefore never get honest votes counted towards a claim whose effect differs from what the
+honest validators saw"). Whatever accepting and applying a claim does — ANY function `effect` of the chain,
+the claim type and the hashed fields, which by `hashed_covers_effect_fields` are all the handler reads besides
+the first submitter's identity and metadata — two well-typed claims stored under the same attestation key
+have the same effect, because they are the same claim on the same chain. Pointwise no-collision as above.
+(`Props/C02.lean`, `honest_votes_counted_only_for_identical_claim`, lifts this to oracle histories.) -/
+theorem same_attestation_key_same_effect {α : Type} (H : List Nat → Nat) (effect : List Nat → Claim → α)
+    (chain chain' : List Nat) (n n' : Nat) (c c' : Claim) (hc : c.wellTyped = true) (hc' : c'.wellTyped = true)
+    (hnc : H (preimage c.fields) = H (preimage c'.fields) → preimage c.fields = preimage c'.fields)
+    (hk : attKey H chain n c = attKey H chain' n' c') :
+    chain = chain' ∧ n = n' ∧ c = c' ∧ effect chain c = effect chain' c' := by
+  simp only [attKey, Prod.mk.injEq] at hk
+  obtain ⟨h1, h2, h3⟩ := hk
+  have := same_key_same_claim H c c' hc hc' hnc h3
+  subst this; subst h1
+  exact ⟨rfl, h2, rfl, rfl⟩
+
 /-! ### non-vacuity -/
+/-- outside the property's scope, for the record: the legacy `MsgBatchSendToEthClaim` renders its token
+contract with a raw `%s`; with the (never validated, genesis-only) token string "aa/01" its four-part
+pre-image `1/2/3/aa/01` is byte for byte the five-part pre-image of a `MsgBatchSendToRemoteClaim` with token
+bytes `[0xaa]` and compass id bytes `[0x01]`. Such a claim cannot be submitted
+(`legacy_claim_types_cannot_be_submitted`), carries the empty compass id (so it is left out of every tally once
+a deployment is on record) and can only enter the store through a genesis file. -/
+example : preimage [.num 1, .num 2, .num 3, .str [170], .str [1]] =
+    decDigits 1 ++ [47] ++ decDigits 2 ++ [47] ++ decDigits 3 ++ [47] ++ [97, 97, 47, 48, 49] := by
+  simp [preimage, join, enc, encStr, hexd, decDigits, slash]
+/-- the fake rows: only the first is accepted -/
+example : claimOk (fakeRow "%x/%d" ["%x", "%d"] ["TokenContract", "SkywayNonce"] ["TokenContract"]) = true := by decide
+example : claimOk (fakeRow "garbage %v" ["%x", "%d"] ["TokenContract", "SkywayNonce"] ["TokenContract"]) = false := by decide
+example : claimOk (fakeRow "%x/%d" ["%x", "%d"] ["TokenContract", "SkywayNonce"] ["EventNonce"]) = false := by decide
+example : claimOk (fakeRow "%x/%d" ["%x", "%d"] ["TokenContract", "SkywayNonce"] ["GetEventNonce"]) = false := by decide
+example : claimOk (fakeRow "%d/%d" ["%d", "%d"] ["EventNonce", "SkywayNonce"] ["TokenContract"]) = false := by decide
+example : claimOk (fakeRow "%s/%d" ["%s", "%d"] ["TokenContract", "SkywayNonce"] []) = false := by decide
+/-- well-typed claims of the three real types, and ill-typed ones (wrong kind in a position, wrong arity,
+legacy type) -/
+example : Claim.wellTyped ⟨"MsgSendToPalomaClaim", [.num 7, .num 100, .str [48, 120], .amt 25, .str [1], .str [2], .str [99]]⟩ = true := by decide
+example : Claim.wellTyped ⟨"MsgLightNodeSaleClaim", [.num 7, .num 100, .str [48], .nilAmt, .str [1], .str [99]]⟩ = true := by decide
+example : Claim.wellTyped ⟨"MsgBatchSendToRemoteClaim", [.num 7, .num 100, .num 3, .str [1], .str [99]]⟩ = true := by decide
+example : Claim.wellTyped ⟨"MsgBatchSendToRemoteClaim", [.num 7, .num 100, .str [3], .str [1], .str [99]]⟩ = false := by decide
+example : Claim.wellTyped ⟨"MsgBatchSendToRemoteClaim", [.num 7, .num 100, .num 3, .str [1]]⟩ = false := by decide
+example : Claim.wellTyped ⟨"MsgBatchSendToEthClaim", [.num 7, .num 100, .num 3, .str [1]]⟩ = false := by decide
 example : preimage [.num 7, .num 100, .str [48, 120], .amt 25, .str []] =
     [55, 47, 49, 48, 48, 47, 51, 48, 55, 56, 47, 50, 53, 47] := by
   simp [preimage, join, enc, encStr, hexd, decDigits, slash]
